@@ -3,11 +3,11 @@
 patch="$1"; prop="$2"; tier="${3:-quick}"
 cd /verif
 git -C /repo apply "$patch" || { echo "patch does not apply"; exit 2; }
-./check.sh "$prop" "$tier" > .work/seedrun.$$.log 2>&1
+./check.sh "$prop" "$tier" > /tmp/seedrun.$$.log 2>&1
 rc=$?
 git -C /repo checkout -- . 
-echo "patch=$patch property=$prop tier=$tier exit=$rc violations=$(grep -c '^VIOLATION' .work/seedrun.$$.log) known=$(grep -c '^KNOWN-FINDING' .work/seedrun.$$.log) engine=$(grep -c '^ENGINE-ERROR' .work/seedrun.$$.log)"
-grep -A1 '^VIOLATION' .work/seedrun.$$.log | grep fingerprint | head -8
-grep '^ENGINE-ERROR' .work/seedrun.$$.log | head -3 | cut -c1-300
-rm -f .work/seedrun.$$.log
+echo "patch=$patch property=$prop tier=$tier exit=$rc violations=$(grep -c '^VIOLATION' /tmp/seedrun.$$.log) known=$(grep -c '^KNOWN-FINDING' /tmp/seedrun.$$.log) engine=$(grep -c '^ENGINE-ERROR' /tmp/seedrun.$$.log)"
+grep -A1 '^VIOLATION' /tmp/seedrun.$$.log | grep fingerprint | head -8
+grep '^ENGINE-ERROR' /tmp/seedrun.$$.log | head -3 | cut -c1-300
+rm -f /tmp/seedrun.$$.log
 [ -z "$(git -C /repo status --short)" ] || echo "WARNING: /repo not clean"
